@@ -148,6 +148,8 @@ impl Txtpp {
 
         loop {
             #[cfg(feature = "verif")]
+            crate::verif::sched::progress(self.progress.done_count, self.progress.total_count);
+            #[cfg(feature = "verif")]
             crate::verif::sched::main_yield();
             let data = match self.recv.try_recv() {
                 Ok(data) => data,
